@@ -433,7 +433,7 @@ func randomScen() scen {
 		}
 	case "mixed":
 		names := append(append(append(append([]int{}, hot...), cold...), shorts...), longs...)
-		names = append(names, idHotMid, idTooLong)
+		names = append(names, idHotMid, idTooLong, idEmpty)
 		for i := 0; i < nth; i++ {
 			sc.progs = append(sc.progs, newProg(names, 1+rnd.Intn(4), 2))
 		}
